@@ -29,11 +29,15 @@ ASSUMPTIONS = [
 N = {"quick": 1500, "thorough": 60000}
 
 
+BIG = {"amoco.arch.x64.cpu_x64": 4, "amoco.arch.x86.cpu_x86": 4, "amoco.arch.arm.cpu_armv7": 2, "amoco.arch.tricore.cpu": 2}
+SWEEP = {"quick": 6, "thorough": 100}  # budget per mode = max(N, SWEEP * number of shipped specs)
+
+
 def shards(tier, seed):
     out = []
-    for name in visa.all_names():
-        # mode/endian pairs are enumerated inside the shard (needs the module)
-        out.append({"isa": name})
+    for n in visa.all_names():
+        k = BIG.get(n, 1)
+        out += [{"isa": n, "sub": j, "nsub": k} for j in range(k)]
     return out
 
 
@@ -224,10 +228,11 @@ def run_shard(shard, tier, seed):
     part = Partial()
     I = visa.load(shard["isa"])
     R = Ref(I)
-    structural(I, part)
+    if shard.get("sub", 0) == 0:
+        structural(I, part)
     modes = I.modes()
-    n = N[tier] // max(1, len(modes)) + 1
     for (mode, e) in modes:
+        n = max(N[tier] // len(modes), SWEEP[tier] * len(I.specs[mode])) // shard.get("nsub", 1) + 1
         hist = []
 
         def body(rnd, mode=mode, e=e, hist=hist):
@@ -254,7 +259,7 @@ def run_shard(shard, tier, seed):
             if res is not None:
                 part.fail(res[0], dict(case, history=prev), res[1])
 
-        campaign(st.randoms(use_true_random=False), body, n, shard_seed(seed, I.name, mode, e))
+        campaign(st.randoms(use_true_random=False), body, n, shard_seed(seed, I.name, mode, e, shard.get("sub", 0)))
     return part
 
 
